@@ -16,7 +16,10 @@ from lxml import etree
 PROP = "C20"
 TEXT = 'urn:oasis:names:tc:opendocument:xmlns:text:1.0'
 T = '{%s}' % TEXT
-NSDECL = 'xmlns:text="%s"' % TEXT
+OFFICE = 'urn:oasis:names:tc:opendocument:xmlns:office:1.0'
+XLINK = 'http://www.w3.org/1999/xlink'
+DC = 'http://purl.org/dc/elements/1.1/'
+NSDECL = 'xmlns:text="%s" xmlns:office="%s" xmlns:xlink="%s" xmlns:dc="%s"' % (TEXT, OFFICE, XLINK, DC)
 
 # ----------------------------------------------------------------------------- Coq printing
 _extra = {}
@@ -47,6 +50,8 @@ def coq_hitems(items):
         elif k == 'tab': out.append('HTab')
         elif k == 'lb': out.append('HLb')
         elif k == 'span': out.append('HSpan ' + coq_hitems(it[1]))
+        elif k == 'link': out.append('HLink ' + coq_hitems(it[1]))
+        elif k == 'note': out.append('HNote')
         else: raise ValueError(it)
     return '[' + ';'.join(out) + ']'
 
@@ -132,6 +137,8 @@ def abs_inline(el):
         elif c.tag == T + 'tab': out.append(['tab'])
         elif c.tag == T + 'line-break': out.append(['lb'])
         elif c.tag == T + 'span': out.append(['span', abs_inline(c)])
+        elif c.tag == T + 'a': out.append(['link', abs_inline(c)])
+        elif c.tag in (T + 'note', '{%s}annotation' % OFFICE, '{%s}annotation-end' % OFFICE): out.append(['note'])
         else: raise OutOfDomain(c.tag)
         if c.tail: out.append(['t', c.tail])
     return out
@@ -208,6 +215,8 @@ def hitems_xml(items):
         elif k == 'tab': out.append('<text:tab/>')
         elif k == 'lb': out.append('<text:line-break/>')
         elif k == 'span': out.append('<text:span text:style-name="T1">%s</text:span>' % hitems_xml(it[1]))
+        elif k == 'link': out.append('<text:a xlink:type="simple" xlink:href="http://example.org/a?b=1&amp;c=2">%s</text:a>' % hitems_xml(it[1]))
+        elif k == 'note': out.append('<text:note text:id="ftn1" text:note-class="footnote"><text:note-citation>1</text:note-citation><text:note-body><text:p>note  body</text:p></text:note-body></text:note>')
     return ''.join(out)
 
 
@@ -220,6 +229,9 @@ def make_heading(odfdo, b):
     for kind, s in b['pieces'][1 if b['pieces'] and b['pieces'][0][0] == 'text' else 0:]:
         if kind == 'text': h.append_plain_text(s)
         elif kind == 'span': h.append(odfdo.Span(s))
+        elif kind == 'link': h.append(odfdo.Link('http://example.org/x', text=s))
+        elif kind == 'note': h.insert_note(after=h.get_elements('text:span')[0] if s and h.get_elements('text:span') else None, note_id='n%d' % len(h.get_elements('descendant::text:note')), citation='*', body='note body')
+        elif kind == 'annotation': h.append(odfdo.Element.from_tag('<office:annotation %s><dc:creator>me</dc:creator><text:p>remark</text:p></office:annotation>' % NSDECL))
         elif kind == 'span2':
             sp = odfdo.Span(s[0]); sp.append(odfdo.Span(s[1])); sp.append_plain_text(s[2]); h.append(sp)
     return h
@@ -448,7 +460,9 @@ def gen_api_heading(rng, level):
     if rng.random() < 0.85: pieces.append(['text', gen_text(rng)])
     for _ in range(rng.choice([0, 0, 0, 1, 1, 2])):
         r = rng.random()
-        if r < 0.45: pieces.append(['span', gen_text(rng)])
+        if r < 0.35: pieces.append(['span', gen_text(rng)])
+        elif r < 0.43: pieces.append(['link', gen_text(rng) or 'site'])
+        elif r < 0.47: pieces.append([rng.choice(['note', 'note', 'annotation']), rng.random() < 0.5])
         elif r < 0.6: pieces.append(['span2', [gen_text(rng), gen_text(rng), gen_text(rng)]])
         else: pieces.append(['text', gen_text(rng)])
     return dict(k='h', level=level, mode='api', pieces=pieces)
@@ -466,6 +480,8 @@ def gen_raw_items(rng, depth=0):
         elif r < 0.6: out.append(['s', rng.choice([1, 1, 2, 3, 7])])
         elif r < 0.7: out.append(['tab'])
         elif r < 0.78: out.append(['lb'])
+        elif r < 0.84 and depth < 2: out.append(['link', gen_raw_items(rng, depth + 1)])
+        elif r < 0.87: out.append(['note'])
         elif depth < 2: out.append(['span', gen_raw_items(rng, depth + 1)])
     return out
 
@@ -594,6 +610,10 @@ def gen_cases(tier, rng):
     edge.append(dict(blocks=[simple_heading(1, 0), dict(k='toc', outline=2, name='a'), dict(k='toc', outline=1, name='b'), simple_heading(2, 1)],
                      ops=[['fill', 0, True, False], ['fill', 1, True, False], ['fill', 0, True, False], ['set_level', 1, 1], ['fill', 1, False, False], ['tool', None], ['reload'], ['fill', 0, True, True], ['tool', None]],
                      family='edge-two-tocs'))
+    edge.append(dict(blocks=[dict(k='toc', outline=0, name='a'), dict(k='h', level=1, mode='api', pieces=[['text', 'See '], ['link', 'the  site'], ['text', ' now']]),
+                             dict(k='h', level=2, mode='api', pieces=[['text', 'Foot'], ['note', False], ['annotation', False]]),
+                             dict(k='h', level=2, mode='raw', content=[['t', 'a'], ['link', [['span', [['t', 'b'], ['s', 2]]], ['t', 'c']]], ['note'], ['t', 'd']])],
+                     ops=[['fill', 0, True, False], ['tool', None], ['reload'], ['fill', 0, False, True], ['tool', 999]], family='edge-links-and-notes'))
     cases += edge
     return cases, nexh
 
@@ -684,6 +704,8 @@ def evaluate(specs, tag, nproc=16):
 def key_of(code, spec, si, err):
     """canonical key of a failing step = (layer, input class)"""
     if code == 3: return "fill/entry-ends-with-line-break"
+    if code in (4, 8, 10) and ('"link"' in json.dumps(spec) or '"note"' in json.dumps(spec) or '"annotation"' in json.dumps(spec)):
+        return "fill/heading-with-link-or-note"
     if code == 11:
         if err and "NoneType" in err and "get_element" in err: return "fill/toc-without-index-body"
         return "fill/exception"
@@ -779,7 +801,7 @@ def run(tier, seed, replay=None):
         property_level_failures=len(hard), driver_notes=len(notes), exhaustive=False)
     return common.finish(PROP, tier, seed, proofs, coverage, violations, known_seen, t0,
                          assumptions=["heading levels 1..10 (text:outline-level is mandatory on text:h), outline level 0..10",
-                                      "heading content limited to character data, text:s, text:tab, text:line-break, text:span (the property's domain)",
+                                      "heading content: character data, text:s, text:tab, text:line-break, text:span, text:a (its text counts), notes and annotations (no part of the heading's text)",
                                       "the number of a heading is counted over the headings listed (level <= outline), as DESIGN.md section 5/C20 specifies; with no skipped level this equals numbering the whole document (theorem)",
                                       "the white-space reading fixed in DESIGN.md section 5/C05"])
 
